@@ -221,9 +221,18 @@ def collector(rep, mir, L):
     e0, e1, mx = A.fresh('initial_energy'), A.fresh('end_energy'), A.fresh('max_err')
     col = L.make('AcceptanceRateCollector', {'initial_energy': e0, 'mean': rm('a'), 'mean_sym': rm('s'), 'max_energy_error': mx})
     pre = [z3.Int('cnta') >= 0, z3.Int('cnta') < 2 ** 40, z3.Int('cnts') >= 0, z3.Int('cnts') < 2 ** 40]
-    for div in (False, True):
+    # a divergence is described by a full DivergenceInfo (every field present, the energy error absent or any value): whatever the collector reads
+    # from it, a divergent leapfrog counts as acceptance 0 in both statistics
+    try: dfields = list(L.fields('DivergenceInfo'))
+    except Exception: dfields = []
+    for div in (False, 'no energy error', 'some energy error'):
         m = Machine(); m.pc = list(pre); c = m.alloc(col); s_end = m.alloc(Struct((e1,), 'AbsState')); s_start = m.alloc(Struct((e0,), 'AbsState'))
-        dinfo = SOME(Ref(m.alloc(Struct((), 'DivergenceInfo')))) if div else NONE()
+        if div and dfields:
+            dv = {f: Opaque('divergence.' + f) for f in dfields}
+            if 'energy_error' in dv: dv['energy_error'] = NONE() if div == 'no energy error' else SOME(A.fresh('div_energy_error'))
+            dstruct = L.make('DivergenceInfo', dv)
+        else: dstruct = Struct((), 'DivergenceInfo')
+        dinfo = SOME(Ref(m.alloc(dstruct))) if div else NONE()
         res = vm.run(reg, [Ref(c), Ref(m.alloc(UNIT)), Ref(s_start), Ref(s_end), dinfo], m); rep.paths += len(res)
         for (mm, k, v) in res:
             if k == 'panic':
